@@ -17,7 +17,10 @@
                 kernel's @outer, directly in the @outer before / between / after the @inner
                 loops, below an if in the @outer, in the @inner, below an if in the @inner, after
                 the @outer; plus non-array and non-constant-size @shared at the right place
-     "order"    chains of 2..4 loops over {@outer, @inner} below the kernel (every order)        *)
+     "order"    chains of 2..4 loops over {@outer, @inner} below the kernel (every order)
+     "pairdecl" two declarations per kernel: every ordered pair of the six declaration shapes, each
+                at its valid place or at an invalid one
+     "pairnest" two @outer nests per kernel, one of them breaking a rule, in both orders          *)
 EXTENDS OklRules, Json
 
 CONSTANTS Families,     \* families in use
@@ -70,11 +73,46 @@ Place ==
 
 Order == {Chain(c, 1) : c \in {c \in Chains(4) : Len(c) >= 2}}
 
+\* TWO constructs of the same kind in one kernel, in both orders, so that a verdict that is
+\* overwritten instead of accumulated is caught for every rule:
+\*  - two declarations in  fo{ .. fi{ .. } .. } : every ordered pair over the six declaration shapes,
+\*    each at a valid place (in the @outer before the @inner) or an invalid one (in the @inner,
+\*    before the @outer loop)
+\*  - two @outer nests, the first or the second broken: no @inner, invalid header, break directly
+\*    in the @inner, @outer inside @inner, non-matching branches
+DeclShapes == {"sh", "sh2", "shs", "shn", "ex", "exa"}
+DeclAt(x, where) == CASE where = "top"   -> Node(x, 1)     \* before the @outer loop
+                      [] where = "outer" -> Node(x, 2)     \* right place
+                      [] where = "inner" -> Node(x, 3)     \* inside the @inner loop
+PairDecl ==
+  {   (IF wa = "top" THEN <<DeclAt(a, wa)>> ELSE <<>>) \o (IF wb = "top" THEN <<DeclAt(b, wb)>> ELSE <<>>)
+   \o <<Node("fo", 1)>>
+   \o (IF wa = "outer" THEN <<DeclAt(a, wa)>> ELSE <<>>) \o (IF wb = "outer" THEN <<DeclAt(b, wb)>> ELSE <<>>)
+   \o <<Node("fi", 2)>>
+   \o (IF wa = "inner" THEN <<DeclAt(a, wa)>> ELSE <<>>) \o (IF wb = "inner" THEN <<DeclAt(b, wb)>> ELSE <<>>)
+   : a \in DeclShapes, b \in DeclShapes, wa \in {"top", "outer", "inner"}, wb \in {"top", "outer", "inner"}}
+  \cup
+  \* the second declaration first (same place): the other traversal order
+  {<<Node("fo", 1), DeclAt(b, "outer"), DeclAt(a, "outer"), Node("fi", 2)>> : a \in DeclShapes, b \in DeclShapes}
+GoodNest == <<Node("fo", 1), Node("fi", 2)>>
+BadNests == {<<Node("fo", 1)>>,
+             <<[k |-> "fo", d |-> 1, h |-> "noupd"], Node("fi", 2)>>,
+             <<Node("fo", 1), [k |-> "fi", d |-> 2, h |-> "ne"]>>,
+             <<Node("fo", 1), Node("fi", 2), Node("br", 3)>>,
+             <<Node("fo", 1), Node("fi", 2), Node("fo", 3)>>,
+             <<Node("fo", 1), Node("fi", 2), Node("fi", 2), Node("fi", 3)>>,
+             <<Node("fo", 1), Node("fi", 2), Node("shs", 3)>>,
+             <<Node("fo", 1), Node("shn", 2), Node("fi", 2)>>}
+PairNest == {b \o GoodNest : b \in BadNests} \cup {GoodNest \o b : b \in BadNests}
+            \cup {GoodNest \o GoodNest}
+
 Family(f) == CASE f = "branch2" -> Branch2
                [] f = "branch3" -> Branch3
                [] f = "skip"    -> Skip
                [] f = "place"   -> Place
                [] f = "order"   -> Order
+               [] f = "pairdecl" -> PairDecl
+               [] f = "pairnest" -> PairNest
 
 \* (structures outside the generated space of OklRules -- more than three nested @outer / @inner --
 \* are dropped)
